@@ -833,6 +833,21 @@ func (g *G) Stmt(allowCtl bool) string {
 		v := g.loopVarName()
 		lo := r.Intn(3)
 		loop := fmt.Sprintf("for %s = %d:%d { %s }", v, lo, lo+1+r.Intn(5), v)
+		switch r.Intn(4) {
+		case 0:
+			// left by break: the value is the one of the previous iteration
+			loop = fmt.Sprintf("for %s = %d:%d { if %s == %d { break }; %s }", v, lo, lo+3+r.Intn(4), v, lo+2, v)
+		case 1:
+			// two loop values alive at once: the second loop reuses the slot of the first
+			v2 := g.loopVarName()
+			loop = fmt.Sprintf("(for %s = %d { %s }) + (for %s = %d { %s })", v, 2+r.Intn(3), v, v2, 6+r.Intn(5), v2)
+		case 2:
+			// the caught value of the bare loop variable, read after the loop moved on
+			loop = fmt.Sprintf("(() => { rc9 := nil; for %s = %d { if %s == 1 { rc9 = catch(%s) } }; rc9.value })()", v, 3+r.Intn(3), v, v)
+			if g.loops > 0 {
+				loop = "0"
+			}
+		}
 		if g.inFunc != nil {
 			g.seq++
 			return "u" + strconv.Itoa(g.seq) + " := " + loop
